@@ -43,9 +43,15 @@ class Ledger:
   def reused_ids(self):
     return [i for i, n in self.inc.items() if n > 1]
 
-  def on_update(self, ev, status_now):
+  def on_update(self, ev, status_now, content_now=None):
     """status_now: id -> 'ACTIVE' | 'COMPLETED' | other, at the moment of update()."""
     v = []
+    for i, got_c in (ev.get('completed_content') or {}).items():
+      want_c = (content_now or {}).get(i)
+      if want_c is not None and got_c is not None and got_c != want_c:
+        v.append(('delivered-trial-content-stale',
+                  f'trial {i} was given to the algorithm as {str(got_c)[:120]} but the study holds {str(want_c)[:120]}'))
+        break
     self.updates += 1
     completed_now = {i for i, s in status_now.items() if s == 'COMPLETED'}
     active_now = {i for i, s in status_now.items() if s == 'ACTIVE'}
@@ -128,12 +134,13 @@ class C12(runner.Check):
             'probe.deletion', 'probe.external-completed-trial', 'probe.infeasible-completion',
             'restart.clean', 'probe.stopping-trial-present', 'probe.mode.service-serializable', 'probe.mode.service-rebuild',
             'probe.mode.inram-alive', 'probe.mode.inram-rebuilt', 'probe.id-reused-after-delete',
-            'probe.mode.service-default', 'probe.study-recreated']
+            'probe.mode.service-default', 'probe.study-recreated', 'probe.mode.inram-designerpolicy']
 
   def gen(self, rng, idx, tier):
-    mode = rng.choice(['service-serializable'] * 4 + ['service-default'] * 2 + ['service-rebuild', 'inram-alive', 'inram-rebuilt'])
+    mode = rng.choice(['service-serializable'] * 4 + ['service-default'] * 2 + ['service-rebuild', 'inram-alive', 'inram-rebuilt', 'inram-designerpolicy'])
     cfg = {'mode': mode, 'backend': rng.choice(['ram', 'ram', 'sqlmem', 'sqlfile']), 'algorithm': 'RECORDING',
            'space': 'int10', 'epoch': simclock.EPOCH + rng.randrange(10**6)}
+    cfg['id_rot'] = rng.randrange(len(O.STUDY_IDS))  # which adversarial id the main study carries
     if mode == 'service-default':
       # the production path: DefaultPolicyFactory and the real designers, observed at Designer.update()
       cfg['algorithm'] = rng.choice(['GRID_SEARCH', 'GRID_SEARCH', 'QUASI_RANDOM_SEARCH', 'EAGLE_STRATEGY'])
@@ -221,11 +228,17 @@ class C12(runner.Check):
           return
         r = O.call(world.sv.ListTrials, vs.ListTrialsRequest(parent=main))
         status = {}
+        content = {}
         if r[0] == 'ok':
           for t in r[1].trials:
             s = O.TS.get(t.state)
             status[int(t.id)] = 'COMPLETED' if s in ('SUCCEEDED', 'INFEASIBLE') else s
-        viol.extend(ledger.on_update(ev, status))
+            if status[int(t.id)] == 'COMPLETED':
+              try:
+                content[int(t.id)] = P.content_of(vz.TrialConverter.from_proto(t))
+              except Exception:  # pylint: disable=broad-except
+                pass
+        viol.extend(ledger.on_update(ev, status, content))
         if ev['completed']:
           res.bump('probe.update-with-completed')
         if not ev['fresh']:
@@ -325,7 +338,9 @@ class C12(runner.Check):
   # --------------------------------------------------------------- in-RAM
   def _run_inram(self, plan, res):
     cfg = plan['cfg']
-    ledger = Ledger('serializable')
+    # 'inram-designerpolicy': one DesignerPolicy object kept alive (PolicySuggester / benchmark style):
+    # a fresh designer per request, which must be given the complete current set every time
+    ledger = Ledger('rebuild' if cfg['mode'] == 'inram-designerpolicy' else 'serializable')
     P.RecordingDesigner.SPACE = cfg.get('space', 'int10')
     problem = O.study_config(cfg).to_problem()
     supporter = pythia.InRamPolicySupporter(problem)
@@ -339,7 +354,8 @@ class C12(runner.Check):
         if ev.get('event') != 'update':
           return
         status = {t.id: pv_status(t) for t in supporter.trials}
-        viol.extend(ledger.on_update(ev, status))
+        content = {t.id: P.content_of(t) for t in supporter.trials if pv_status(t) == 'COMPLETED'}
+        viol.extend(ledger.on_update(ev, status, content))
         if ev['completed']:
           res.bump('probe.update-with-completed')
         if not ev['fresh']:
@@ -349,6 +365,8 @@ class C12(runner.Check):
     P.RecordingDesigner.LOG = hook
 
     def new_policy():
+      if cfg['mode'] == 'inram-designerpolicy':
+        return dp.DesignerPolicy(supporter, P.RecordingDesigner, use_seeding=False)
       return dp.PartiallySerializableDesignerPolicy(supporter.study_config, supporter, P.RecordingDesigner)
 
     policy = new_policy()
